@@ -356,3 +356,41 @@ pub mod walk {
         Some(node)
     }
 }
+
+// ------------------------------------------------------------------ exact guard set / mutation map
+/// only the recognised condition (flag is false) guards the action
+pub fn exact_guard_ok(s: &St, xs: &[u32]) {
+    for x in xs {
+        if s.flag {
+            continue;
+        }
+        act(*x);
+    }
+}
+
+/// one more condition silently filters the action
+pub fn exact_guard_bad_extra(s: &St, xs: &[u32]) {
+    for x in xs {
+        if s.flag {
+            continue;
+        }
+        if *x as f64 * 0.5 <= 1.0 {
+            continue;
+        }
+        act(*x);
+    }
+}
+
+pub struct Mm {
+    pub seen: BTreeMap<u64, u32>,
+    pub n: u64,
+}
+
+pub fn mm_insert(m: &mut Mm) {
+    m.seen.insert(1, 2);
+    m.n = 3;
+}
+
+pub fn mm_remove(m: &mut Mm) {
+    m.seen.remove(&1);
+}
